@@ -2062,9 +2062,9 @@ _resource_tracker""")),
     M("fresh-parent-end-in-keep-list", ["C18", "C20"], ["R-SPAWN-FRESH"],
       (PP, """            self._fds += [child_r, child_w, tracker_fd]""", """            self._fds += [child_r, child_w, parent_r, tracker_fd]""")),
     M("fresh-child-ends-not-closed", ["C18", "C20"], ["R-SPAWN-FRESH"],
-      (PP, """            for fd in (child_r, child_w):
+      (PP, """            for fd in (child_r, child_w, parent_w):
                 if fd is not None:
-                    os.close(fd)""", """            for fd in (child_r,):
+                    os.close(fd)""", """            for fd in (child_r, parent_w):
                 if fd is not None:
                     os.close(fd)""")),
     M("fresh-launch-drops-env", ["C18"], ["R-SPAWN-FRESH"],
